@@ -13,7 +13,7 @@
 //   rotate                         `writer = PacketWriter(other_path, lt)` (move assignment onto the live writer, the
 //                                  usual way to start the next file): the first file must be complete and nothing leak
 //   chop <k>                       truncates the file by k bytes
-//   read k=v ...                   api=next|loop|iter  filt=none|empty|cfg|ctor|post  raw=0|1  src=name|fp
+//   read k=v ...                   api=next|loop|iter  filt=none|empty|cfg|ctor|post  raw=0|1  src=name|fp  mv=0|1
 //                                  max=<n> stop=<k> thr=<i>:<mal|nf>,...  cb=packet|pdu   f=<filter text to end of line>
 //   offline <how> f=<filter>       OfflinePacketFilter over the frames read back as RawPDU (how = pdu | buf)
 //
@@ -387,6 +387,12 @@ static std::string do_read(Case& c, const std::string& line) {
             sn->set_pcap_sniffing_method(method_of(c.method));
         } catch (const std::exception& e) {
             return "read open=throw:" + xname(e);
+        }
+        if (kv["mv"] == "1") {
+            // read through a move-constructed sniffer; the moved-from one is destroyed first
+            std::unique_ptr<FileSniffer> moved(new FileSniffer(std::move(*sn)));
+            sn.swap(moved);
+            moved.reset();
         }
         o << " open=ok dlt=" << sn->link_type();
         if (raw) sn->set_extract_raw_pdus(true);
